@@ -1124,6 +1124,11 @@ size_t OPNMIDIplay::realTime_currentDevice(size_t track)
     return m_currentMidiDevice[track];
 }
 
+void OPNMIDIplay::realTime_resetDevices()
+{
+    m_currentMidiDevice.clear();
+}
+
 #if defined(ADLMIDI_AUDIO_TICK_HANDLER)
 void OPNMIDIplay::AudioTick(uint32_t chipId, uint32_t rate)
 {
